@@ -14,7 +14,7 @@ CONSTANT Open
 Rec == ndJsonDeserialize(IOEnv.TRACE)
 VARIABLE l
 
-U1 == Cp("u1")  U2 == Cp("u2")
+U1 == Cp("u1")  U2 == <<117, 38, 50>>
 PP == Cp("p")   QQ == Cp("q")   II == Cp("e")
 Order == <<XmlPre, <<>>, PP, QQ>>
 NameT(pre, n) == [k |-> "name", pre |-> pre, loc |-> Cp(n)]
@@ -56,6 +56,34 @@ QueryProblems(e, d, field) ==
   { <<b, q>> \in (1..Len(Bindings)) \X (1..Len(Tests(II))) :
       ~SameNodes(e[field][b].obs[q], EvalTop(d, Tests(II)[q], Bindings[b])) }
 
+\* the specification's image of the edits the harness performs (by name)
+U2Lit == <<117, 50>>                                  \* the literal "u2" the harness writes
+\* the trees an edit may leave behind.  remove_attribute("xmlns:p") has two allowed outcomes: the declaration is gone, or -
+\* this crate addresses attributes by their local part, so the qualified name of a declaration names nothing - nothing
+\* happened (whether it SHOULD remove is C13's business; C10 is about resolving whatever declarations there are)
+EditTrees(t0, name) ==
+  LET t == Canon(t0, Order) IN          \* the declarations as the text of the case writes them
+  CASE name = "root.set_attribute(xmlns:p, u2)" -> {SetDecl(t, 1, PP, U2Lit)}
+    [] name = "root.remove_attribute(xmlns:p)"  -> {RemoveDecl(t, 1, PP), t}
+    [] name = "root.set_attribute(xmlns, u2)"   -> {SetDecl(t, 1, <<>>, U2Lit)}
+    [] name = "root.remove_attribute(xmlns)"    -> {RemoveDecl(t, 1, <<>>), t}
+    [] name = "root.append_child(last element)" -> {MoveLastUnder(t, 1)}
+    [] OTHER -> {t}
+Matches(t2, live) ==
+  LET P2 == PrefixesOf(t2) IN
+  /\ Len(live) = NE(t2)
+  /\ \A k \in 1..NE(t2) :
+       LET o == live[k]
+           sc == { <<x, Scope(t2, P2, k)[x]>> : x \in InScope(t2, P2, k) }
+       IN  /\ o.named /\ o.scoped
+           /\ o.uri = ElemUri(t2, P2, k) /\ o.loc = t2[k].loc /\ o.pre = t2[k].pre
+           /\ { <<o.scope[j][1], o.scope[j][2]>> : j \in 1..Len(o.scope) } = sc
+           /\ Len(o.scope) = Cardinality(sc)
+EditProblem(t, ed) ==
+  LET ok == { t2 \in EditTrees(t, ed.edit) : NsWf(t2) }
+  IN  ok # {} /\ \A t2 \in ok : ~Matches(t2, ed.live)
+EditTree(t, name) == CHOOSE t2 \in EditTrees(t, name) : NsWf(t2)
+
 Verdict(e) ==
   LET t == e.t
       P == PrefixesOf(t)
@@ -85,7 +113,19 @@ Verdict(e) ==
        IF rb # {} THEN Viol("a prefix bound a second time keeps its first binding", [text |-> e.text, test |-> TestNames[CHOOSE q \in rb : TRUE]])
   ELSE \* after an edit through the DOM (a namespace declaration set or removed on an ancestor, a subtree moved)
        \* every element resolves as it does in a fresh parse of the document's serialization
-       LET eb == { k \in 1..Len(e.edits) : e.edits[k].live # e.edits[k].re } IN
+       \* ... and as the specification's edit actions (Namespaces!SetDecl / RemoveDecl / MoveLastUnder) prescribe,
+       \* whenever the edited tree is namespace-well-formed
+       LET em == { k \in 1..Len(e.edits) : EditProblem(t, e.edits[k]) } IN
+       IF em # {} THEN
+            LET k == CHOOSE k \in em : \A j \in em : k <= j
+                t2 == EditTree(t, e.edits[k].edit)
+            IN
+            Viol("after a DOM edit of a namespace declaration (or a move) an element's expanded name / in-scope namespaces are not those of the edited tree",
+                 [text |-> e.text, edit |-> e.edits[k].edit, observed |-> e.edits[k].live,
+                  expected |-> [j \in 1..NE(t2) |-> [uri |-> ElemUri(t2, PrefixesOf(t2), j),
+                                                      scope |-> { <<x, Scope(t2, PrefixesOf(t2), j)[x]>> : x \in InScope(t2, PrefixesOf(t2), j) }]]])
+       ELSE
+       LET eb == { k \in 1..Len(e.edits) : e.edits[k].reparsed /\ e.edits[k].live # e.edits[k].re } IN
        IF eb # {} THEN
             LET k == CHOOSE k \in eb : \A j \in eb : k <= j IN
             Viol("after a DOM edit an element's expanded name / in-scope namespaces differ from a fresh parse of the serialization",
